@@ -100,7 +100,8 @@ package inhibit
 // C03: an ingested alert is cached in, and indexed for, every rule whose source side it matches - and only those.
 //@ func (*Inhibitor).processAlert
 //@   props C03
-//@   nosafe
+//@   requires tracer != nil
+//@   assumes forall k int :: 0 <= k && k < len(ih.rules) ==> ih.rules[k] != nil && ih.rules[k].scache != nil
 //@   requires ih != nil && a != nil
 //@   after call Tracer).Start assume res0 != nil && res1 != nil
 //@   at call store.Alerts).Set assert [cache-only-sources] arg1 == a && ret("Matchers).Matches")
@@ -118,7 +119,8 @@ package inhibit
 //@     && (exists f model.Fingerprint :: inIdx(r.sindex, eqFP(r, lset), f) && inhibitor(r, f, lset, r.SourceMatchers.Matches(lset), now))
 //@ func (*Inhibitor).Mutes
 //@   props C03
-//@   nosafe
+//@   requires tracer != nil
+//@   after call FromContext assume res1 ==> res0 != nil
 //@   requires ih != nil && forall k int :: 0 <= k && k < len(ih.rules) ==> ruleOK(ih.rules[k])
 //@   after call Tracer).Start assume res0 != nil && res1 != nil
 //@   ensures [existential-rule] result == (exists k int :: 0 <= k && k < len(ih.rules) && ruleInhibits(ih.rules[k], lset, first("time.Now")))
